@@ -571,6 +571,81 @@ theorem pkt_own (cfg : Cfg) (pol : Pol) (s : St) (conn key : Nat) (t : Tun) (r :
   · simp [ho, hst, endLoop, hph, fr.1, fr.2.1, fr.2.2.1]
   · simp [ho, hst, hph, fr.1, fr.2.1, fr.2.2.1]
 
+/-- **A dial is earned by the dialling tunnel alone.** Whenever the gateway connects tunnel `k`
+    to a host, the packet that caused it arrived on the connection `k`'s own loop reads, `k`
+    itself was in the authorized phase, and the host passed the policy evaluated on `k`'s own
+    user, address and token claims — whatever phase, identity or token any other tunnel has. -/
+theorem dial_earned_by_own_tunnel (cfg : Cfg) (pol : Pol) (s : St) (conn : Nat) (r : Req)
+    (k : Nat) (h : Bytes) (ok : Bool)
+    (hd : Obs.dial k h ok ∈ (Multi.step cfg pol s (.pkt conn r)).log) (hn : Obs.dial k h ok ∉ s.log) :
+    s.loop conn = some k ∧ ∃ t, s.tuns k = some t ∧ t.ph = .tunnelAuthorize ∧ r = .channelCreate h ∧
+      (cfg.hasHostCheck = true → pol.hostOk t.user t.addr t.claims h = true) ∧ ok = pol.dialOk h := by
+  cases hl : s.loop conn with
+  | none => simp [Multi.step, hl] at hd; exact (hn hd).elim
+  | some key =>
+    cases ht : s.tuns key with
+    | none => simp [Multi.step, hl, ht] at hd; exact (hn hd).elim
+    | some t =>
+      have hlog := (pkt_own cfg pol s conn key t r hl ht).2.1
+      rw [hlog] at hd
+      simp only [List.mem_append] at hd
+      rcases hd with hd | hd
+      · exact (hn hd).elim
+      · simp only [List.mem_flatten, List.mem_map] at hd
+        obtain ⟨l, ⟨ev, hev, rfl⟩, hol⟩ := hd
+        -- which events of a single-tunnel step can be a dial
+        have key_eq : ∀ ev', Obs.dial k h ok ∈ obsOf key conn t ev' → k = key ∧ ev' = .dial h ok := by
+          intro ev' hm
+          cases ev' with
+          | resp r' =>
+            unfold obsOf at hm
+            cases hto : t.tOut with
+            | none => simp [hto] at hm
+            | some a => simp [hto] at hm
+          | dial h' ok' => simp [obsOf] at hm; obtain ⟨a, b, c⟩ := hm; subst a; subst b; subst c; exact ⟨rfl, rfl⟩
+          | up p => simp [obsOf] at hm
+          | relayStart => simp [obsOf] at hm
+        obtain ⟨hk, hev'⟩ := key_eq ev hol
+        subst hk; subst hev'
+        refine ⟨rfl, t, ht, ?_⟩
+        -- a dial event comes out of `Tunnel.step` only from an in-phase, policy-approved CHANNEL_CREATE
+        cases r with
+        | channelCreate h' =>
+          simp only [Tunnel.step] at hev
+          by_cases hp : t.ph ≠ .tunnelAuthorize
+          · simp [hp] at hev
+          · simp only [hp, if_false] at hev
+            have hp' : t.ph = .tunnelAuthorize := by simpa using hp
+            by_cases hc : (cfg.hasHostCheck && !(envOf pol t).hostOk h') = true
+            · simp [hc] at hev
+            · simp only [hc, Bool.false_eq_true, if_false] at hev
+              by_cases hdl : (!(envOf pol t).dialOk h') = true
+              · simp only [hdl, if_true] at hev
+                simp at hev
+                obtain ⟨e1, e2⟩ := hev
+                subst e1
+                refine ⟨hp', rfl, ?_, ?_⟩
+                · intro hh; simp [hh, envOf] at hc; exact hc
+                · simp [envOf] at hdl; rw [e2]; exact hdl.symm
+              · simp only [hdl, Bool.false_eq_true, if_false] at hev
+                simp at hev
+                obtain ⟨e1, e2⟩ := hev
+                subst e1
+                refine ⟨hp', rfl, ?_, ?_⟩
+                · intro hh; simp [hh, envOf] at hc; exact hc
+                · simp [envOf] at hdl; rw [e2]; exact hdl.symm
+        | handshake a b c =>
+          simp only [Tunnel.step] at hev
+          split at hev
+          · simp at hev
+          · split at hev <;> simp at hev
+        | tunnelCreate c => simp only [Tunnel.step] at hev; (repeat' split at hev) <;> simp at hev
+        | tunnelAuth c => simp only [Tunnel.step] at hev; (repeat' split at hev) <;> simp at hev
+        | data p => simp only [Tunnel.step] at hev; (repeat' split at hev) <;> simp at hev
+        | keepalive => simp only [Tunnel.step] at hev; (repeat' split at hev) <;> simp at hev
+        | closeChannel => simp only [Tunnel.step] at hev; (repeat' split at hev) <;> simp at hev
+        | unknown n => simp [Tunnel.step] at hev
+
 /-- an event addressed to tunnel `j` somewhere along a run -/
 def touches (cfg : Cfg) (pol : Pol) (j : Nat) : St → List Event → Prop
   | _, [] => False
